@@ -452,7 +452,7 @@ class ContentAnalysis(BufferAnalysis):
                 return st2
         if isinstance(s, ast.Return) and self.track_source and fr.func is not self.entry:
             self.check_lca(st, s, fr)
-        if isinstance(s, ast.Raise):
+        if isinstance(s, ast.Raise) and s.exc is not None:        # (a bare `raise` in a handler passes on an exception that came from elsewhere - a user action)
             def f(fl, z):
                 self.rec('O7-noraise', fr, s, 'FAIL(reachable for a chart that follows the protocol)', '%s %s' % (fl, z.show()))
                 return (fl, z)
